@@ -484,6 +484,10 @@ ODD_LINKS = ["<inv://[x>", "[a](inv://[x)", "[a](http://[x)", "<http://[::1>", "
              "[a](inv:%5B#x)", "[a](//[x/y)", "![img](http://[x)", "[a](ftp://[x \"title\")"]
 
 
+OPTION_VALUES = ['"\\x-1"', '"\\u-0e9"', '"\\U00110000"', '"\\UFFFFFFFF"', '"unterminated', "'a", "|", ">", "|9", "!!python/object x", "*alias", "&a b", "[", "{a: b", '"\\xZZ"', '"\\', "- x", "? y", "a: b: c", "\ttab",
+                 '"a\\\nb"', "'it''s'", '"\\N\\_\\L\\P"', "@at", "`tick", "%pct", "a #c", ": colon", "\u2028", "\ufeffbom"]
+
+
 def _all_directive_options():
     """(directive name, option name, needs argument) for every directive of the docutils registry."""
     from docutils.parsers.rst import directives
@@ -505,6 +509,9 @@ def _all_directive_options():
 
 
 DIR_OPTS = []
+DIR_NAMES = []
+ATTR_KEYS = ["width", "height", "align", "w", "h", "a", "class", "id", "name", "scale", "alt", "title", "target", "nosuchkey"]
+ATTR_VALUES = ["1q", "x", "10px", "50%", "left", "-1", "\"a b\""]
 
 
 def run_more(kind, i, real=False):
@@ -514,6 +521,17 @@ def run_more(kind, i, real=False):
     elif kind == "link":
         text = "before " + ODD_LINKS[i] + " after\n"
         over = {"myst_url_schemes": {"http": {"url": "{{scheme}}://{{netloc}}/{{path}}", "title": "{{path}}"}, "mailto": None, "ftp": None}, "myst_inventories": {"k": ["https://x.invalid/", "/nonexistent-symx/objects.inv"]}}
+    elif kind == "dirblank":
+        name, needs_arg, has_content = DIR_NAMES[i // 2]
+        text = "```{%s}%s\n\n\n%s```\n\nafter\n" % (name, " arg.png" if needs_arg else "", "text\n" if i % 2 else "")
+        over = {}
+    elif kind == "attrs":
+        k_, v_ = ATTR_KEYS[i // len(ATTR_VALUES)], ATTR_VALUES[i % len(ATTR_VALUES)]
+        text = "![alt](img.png){%s=%s} [link](http://x){%s=%s} `code`{%s=%s} [span]{%s=%s}\n\n{%s=%s}\npara\n\n{%s=%s}\n# Heading\n\n{%s=%s}\n![b](c.png)\n" % ((k_, v_) * 7)
+        over = {"myst_enable_extensions": ["attrs_inline", "attrs_block"]}
+    elif kind == "optval":
+        text = "```{note}\n:class: %s\n:name: n%d\n\nbody\n```\n\n```{note}\n---\nclass: %s\n---\nbody\n```\n\nafter\n" % (OPTION_VALUES[i], i, OPTION_VALUES[i])
+        over = {}
     else:
         name, opt, needs_arg, has_content = DIR_OPTS[i]
         text = "```{%s}%s\n:%s:\n%s```\n\nafter\n" % (name, " arg.png" if needs_arg else "", opt, "\nbody\n" if has_content else "")
@@ -525,7 +543,13 @@ def make_more(eng, kind):
     setup()
     if not DIR_OPTS:
         DIR_OPTS.extend(_all_directive_options())
-    n = {"fm": len(FM_VALUES), "link": len(ODD_LINKS), "diropt": len(DIR_OPTS)}[kind]
+    if not DIR_NAMES:
+        seen_ = set()
+        for nm, _o, na, hc in DIR_OPTS:
+            if nm not in seen_ and nm not in ("include", "raw", "csv-table"):
+                seen_.add(nm)
+                DIR_NAMES.append((nm, na, hc))
+    n = {"fm": len(FM_VALUES), "link": len(ODD_LINKS), "diropt": len(DIR_OPTS), "optval": len(OPTION_VALUES), "dirblank": 2 * len(DIR_NAMES), "attrs": len(ATTR_KEYS) * len(ATTR_VALUES)}[kind]
     c = CR.Choice(eng, n=4, width=31)
     state = {}
     eng.witness_fn = lambda m: dict(state)
@@ -535,7 +559,7 @@ def make_more(eng, kind):
         i = c.choose((n + 31) // 32) * 32 + c.choose(32)  # two-level choice: the case-split cap is 64
         if i >= n:
             raise core.PathAbort("index out of range")
-        state.update(more=[kind, i], what=(FM_VALUES[i] if kind == "fm" else ODD_LINKS[i] if kind == "link" else list(DIR_OPTS[i]))[:3] if kind == "diropt" else (FM_VALUES[i][:60] if kind == "fm" else ODD_LINKS[i]))
+        state.update(more=[kind, i], what=list(DIR_OPTS[i])[:3] if kind == "diropt" else list(DIR_NAMES[i // 2]) + [i % 2] if kind == "dirblank" else [ATTR_KEYS[i // len(ATTR_VALUES)], ATTR_VALUES[i % len(ATTR_VALUES)]] if kind == "attrs" else (FM_VALUES[i][:60] if kind == "fm" else OPTION_VALUES[i] if kind == "optval" else ODD_LINKS[i]))
         try:
             doc, warn = run_more(kind, i)
         except Exception as exc:  # noqa
@@ -684,6 +708,11 @@ def families(tier, seed):
                     nontrivial="fault-reported", max_forks=100000))
     F.append(Family("L13-odd-links", make_more, "%d links / images whose destination has an invalid IPv6 netloc, NUL bytes or bad percent escapes, with dict-valued url_schemes and an unloadable inventory" % len(ODD_LINKS), args=dict(kind="link"),
                     nontrivial="fault-reported", max_forks=100000))
+    F.append(Family("L13-option-values", make_more, "%d option values that are malformed or unusual for the option tokenizer (bad escapes, unterminated quotes, block-scalar headers, YAML tags/anchors, flow openers), in both option styles" % len(OPTION_VALUES), args=dict(kind="optval"),
+                    nontrivial="fault-reported", max_forks=100000))
+    F.append(Family("L13-blank-directive-bodies", make_more, "every directive of the docutils registry with a body of blank lines only / starting with two blank lines", args=dict(kind="dirblank"), nontrivial="fault-reported", max_forks=100000))
+    F.append(Family("L13-attribute-values", make_more, "attribute keys %r (incl. the aliases w/h/a) x values %r on images, links, code spans, spans, paragraphs and headings" % (ATTR_KEYS, ATTR_VALUES), args=dict(kind="attrs"),
+                    nontrivial="fault-reported", max_forks=100000))
     F.append(Family("L13-empty-directive-options", make_more, "every option of every directive in the docutils registry written with an empty value (converters receive None)", args=dict(kind="diropt"),
                     nontrivial="fault-reported", max_forks=100000))
     F.append(Family("L14-name-clashes", make_names, "%d documents in which one name is used by several targets (footnote label, explicit target, attribute id, directive :name:, heading, math label) x footnote_sort" % len(NAME_CLASH_DOCS),
@@ -723,6 +752,12 @@ def replay(label, witness):
         if "more" in witness:
             if not DIR_OPTS:
                 DIR_OPTS.extend(_all_directive_options())
+            if not DIR_NAMES:
+                seen_ = set()
+                for nm, _o, na, hc in DIR_OPTS:
+                    if nm not in seen_ and nm not in ("include", "raw", "csv-table"):
+                        seen_.add(nm)
+                        DIR_NAMES.append((nm, na, hc))
             run_more(witness["more"][0], witness["more"][1], real=True)
             return None
         if "html" in witness:
